@@ -20,6 +20,7 @@ translations are `Frame.translation t`, pure symmetries `Frame.ofSym S`.
 import AdaptaVerif.Spec.Frame
 import AdaptaVerif.Lemmas.FrameGeom
 import AdaptaVerif.Lemmas.FrameRoute
+import AdaptaVerif.Lemmas.FrameCost
 import AdaptaVerif.Lemmas.FrameVpsc
 import AdaptaVerif.Lemmas.FrameScan
 import AdaptaVerif.Lemmas.FrameExample
@@ -28,6 +29,7 @@ namespace AdaptaVerif.Props.C20
 open AdaptaVerif.Model.Geometry AdaptaVerif.Model.Frame AdaptaVerif.Spec.Frame
 open AdaptaVerif.Lemmas
 open AdaptaVerif.Lemmas.FrameExample (exP exX)
+open AdaptaVerif.Model.RouteCost
 
 /-! ## (1) geometry predicates -/
 
@@ -152,6 +154,66 @@ example : ∃ r, RouteValid [] ⟨0, 0⟩ ⟨1, 0⟩ r ∧
     ∀ r', RouteValid [] ⟨0, 0⟩ ⟨1, 0⟩ r' → (fun _ : List Rat × Nat => (0 : Nat)) (sqLens r, bends r) ≤
       (fun _ : List Rat × Nat => (0 : Nat)) (sqLens r', bends r') :=
   ⟨[⟨0, 0⟩, ⟨1, 0⟩], ⟨rfl, rfl, fun _ _ R hR => absurd hR List.not_mem_nil⟩, fun _ _ => Nat.le_refl 0⟩
+
+/-! ## (2b) the cost `cost()` charges an A* vertex path: segment penalty and reverse-direction penalty
+
+`Model/RouteCost.lean` transcribes the `reverseDirectionPenalty` block of `cost()` (cola/libavoid/makepath.cpp): with
+`xDir`/`yDir` the signs of the source→destination displacement, an edge `p → q` is penalised iff
+`(xDir ≠ 0 ∧ −xDir = sign (q.x − p.x)) ∨ (yDir ≠ 0 ∧ −yDir = sign (q.y − p.y))`.  The driver evaluates this model on the
+vertex paths the real search returns in the 8 frames of every `route-symmetry-params` scene and demands equal costs. -/
+
+/-- the reverse-direction rule gives the same verdict in every frame — the 8 symmetries of the square and all
+    translations — for EVERY source→destination displacement (zero components included: exactly aligned end
+    points) and every edge (zero-length and diagonal ones included) -/
+theorem reverse_direction_rule_frame_invariant (F : Frame) (src dst p q : Pt) :
+    reverses (F.act src) (F.act dst) (F.act p) (F.act q) = reverses src dst p q :=
+  FrameCost.reverses_act F src dst p q
+
+-- the rule is not trivial: with the end points vertically aligned, an edge heading away from the destination is
+-- penalised, a sideways one and one heading towards the destination are not
+example : reverses ⟨0, 0⟩ ⟨0, 5⟩ ⟨0, 0⟩ ⟨0, -1⟩ = true ∧ reverses ⟨0, 0⟩ ⟨0, 5⟩ ⟨0, 0⟩ ⟨3, 0⟩ = false ∧
+    reverses ⟨0, 0⟩ ⟨0, 5⟩ ⟨0, 0⟩ ⟨0, 2⟩ = false := by
+  simp [reverses, axisReverses, dimDir]
+
+/-- the guards matter: the variant whose Y test is guarded by the X displacement (`reversesSlip`) is NOT invariant
+    under exchanging the axes — vertically aligned end points, an edge heading away from the destination: not
+    penalised; the transposed situation: penalised -/
+theorem reverse_rule_guard_matters :
+    reversesSlip ⟨0, 0⟩ ⟨0, 1⟩ ⟨0, 0⟩ ⟨0, -1⟩ = false ∧
+    reversesSlip ((Frame.ofSym Sym.diag).act ⟨0, 0⟩) ((Frame.ofSym Sym.diag).act ⟨0, 1⟩)
+      ((Frame.ofSym Sym.diag).act ⟨0, 0⟩) ((Frame.ofSym Sym.diag).act ⟨0, -1⟩) = true := by
+  simp [reversesSlip, axisReverses, dimDir, Frame.act, Frame.ofSym, Sym.apply]
+
+/-- number of penalised edges, the penalty sum `segmentPenalty·bends + reverseDirectionPenalty·reversing edges`, and
+    the two path costs built from them (every edge charged / orthogonal search: last edge not charged) are
+    frame-independent, for all penalty values, end points and vertex paths -/
+theorem path_costs_frame_invariant (F : Frame) (seg rev : Rat) (src dst : Pt) (P : Route) :
+    revEdges (F.act src) (F.act dst) (F.actRoute P) = revEdges src dst P ∧
+    penalties seg rev (F.act src) (F.act dst) (F.actRoute P) = penalties seg rev src dst P ∧
+    fullPathCost seg rev (F.act src) (F.act dst) (F.actRoute P) = fullPathCost seg rev src dst P ∧
+    orthPathCost seg rev (F.act src) (F.act dst) (F.actRoute P) = orthPathCost seg rev src dst P :=
+  ⟨FrameCost.revEdges_act F src dst P, FrameCost.penalties_act F seg rev src dst P,
+   FrameCost.fullPathCost_act F seg rev src dst P, FrameCost.orthPathCost_act F seg rev src dst P⟩
+
+/-- for polyline connectors the cost is Σ√(squared leg length) + penalties: its data (squared leg lengths, penalty
+    sum) is frame-independent -/
+theorem polyline_path_cost_data_frame_invariant (F : Frame) (seg rev : Rat) (src dst : Pt) (P : Route) :
+    (sqLens (F.actRoute P), penalties seg rev (F.act src) (F.act dst) (F.actRoute P)) =
+      (sqLens P, penalties seg rev src dst P) := by
+  rw [FrameRoute.sqLens_act, FrameCost.penalties_act]
+
+/-- hence the OPTIMAL cost of an orthogonal routing problem with segment and reverse-direction penalties is the
+    same in every frame: two runs of a correct minimiser on a scene and on its image must return routes of equal
+    cost — what the driver checks on the real router's vertex paths -/
+theorem optimal_orth_path_cost_frame_invariant (F : Frame) (seg rev : Rat) (sc : Scene) (s d : Pt) (c : Rat) :
+    IsOptOrthPathCost seg rev (F.actScene sc) (F.act s) (F.act d) c ↔ IsOptOrthPathCost seg rev sc s d c :=
+  FrameCost.isOptOrthPathCost_act F seg rev sc s d c
+
+-- the model on a concrete vertex path: source (0,0), destination (0,4) (vertically aligned), path up to (0,-2) in two
+-- edges, across to (3,-2), down to (3,4), back to (0,4): the two upward edges are the reversing ones
+example : revEdges ⟨0, 0⟩ ⟨0, 4⟩ [⟨0, 0⟩, ⟨0, -1⟩, ⟨0, -2⟩, ⟨3, -2⟩, ⟨3, 4⟩, ⟨0, 4⟩] = 2 := by
+  simp [revEdges, reverses, axisReverses, dimDir]
+  norm_num
 
 /-! ## (3) VPSC -/
 
